@@ -360,6 +360,12 @@ class Sensor(Component):
             if self.remaining_repair_time <= Time(0):
                 self.not_fail()
                 self.remaining_repair_time = Time(0)
+                # While under repair the sensor reported its line as
+                # failed; the controller has to poll the section again,
+                # otherwise it is never put back into service
+                network = getattr(self.line, "parent_network", None)
+                if network is not None and network.controller is not None:
+                    network.controller.check_components = True
         elif self.state == SensorState.OK:
             self.draw_fail_status(dt)
 
